@@ -225,6 +225,7 @@ func RunSearch(s Search, prop string, workers int, deadline time.Time, col *ev.C
 	cfg.MaxConf += used.conf
 	cfg.MaxCompact += used.compact
 	cfg.MaxTransfer += used.transfer
+	cfg.MaxUnreach += used.unreach
 	if cfg.MaxTick > 0 {
 		cfg.MaxTick += used.tick
 	}
